@@ -1146,25 +1146,56 @@ def trajectory_suite(ctx):
     done = 0
     attempts = 0
     target = 60 if ctx.thorough else 22
-    while done < target and attempts < 40 * target:
-        attempts += 1
-        n = rng.choice([1, 2, 2, 3])
-        gs = gen_circuit(rng, n, rng.randint(1, 5), allow_m=False, allow_chan=False)
-        mode = rng.random()
-        present = sorted({g.split("(")[0].split(".")[1] for g in gs})
-        if mode < 0.65:
-            rules = mixture_rules(rng, n, [None] + present, rng.randint(1, 2), False)
-            src = case_source(n, False, gs, rules) + "noisy = nm.apply(c)\n"
+    # three-qubit (and larger) mixtures: a DepolarizingError attached to a gate on 3 qubits is a mixture of all 63
+    # non-identity Pauli strings; one such channel per circuit keeps the exact enumeration at 64 (x small) tapes
+    wide = []
+    for k in range(8 if ctx.thorough else 4):
+        n = rng.choice([3, 3, 4])
+        qs = rng.sample(range(n), 3)
+        lam = rng.choice([0.25, 0.5, 0.9, 1.0])
+        kind = k % 4
+        if kind == 0:
+            g3, key = f"gates.TOFFOLI({_q(qs)})", "gates.TOFFOLI"
+        elif kind == 1:
+            g3, key = f"gates.CCZ({_q(qs)})", "gates.CCZ"
+        elif kind == 2:
+            g3, key = f"gates.Unitary(np.kron(XZ, Y), {_q(qs)})", "gates.Unitary"
         else:
-            nmap = {q: rng.choice([[("X", (q + 1) / 16)], [("Y", 0.125), ("Z", (q + 1) / 32)]]) for q in range(n)}
-            src = f"c = Circuit({n}, density_matrix=False)\n" + "".join(f"c.add({g})\n" for g in gs) + f"noisy = c.with_pauli_noise({nmap!r})\n"
+            g3, key = f"gates.RX({qs[0]}, theta=0.75).controlled_by({qs[1]}, {qs[2]})", "gates.RX"
+        pre = [f"gates.{rng.choice(['H', 'SX', 'T'])}({q})" for q in range(n)]
+        post = [f"gates.{rng.choice(['S', 'X', 'Y'])}({rng.randrange(n)})"]
+        extra = f"nm.add(PauliError([('X', 0.125)]), gates.{post[0].split('(')[0].split('.')[1]})\n" if k % 2 else ""
+        wide.append(f"c = Circuit({n}, density_matrix=False)\n" + "".join(f"c.add({g})\n" for g in pre + [g3] + post)
+                    + f"nm = NoiseModel()\nnm.add(DepolarizingError({lam!r}), {key})\n" + extra + "noisy = nm.apply(c)\n")
+    while (wide or done < target) and attempts < 40 * target:
+        attempts += 1
+        is_wide = bool(wide)
+        if is_wide:
+            src = wide.pop()
+            n = int(src.split("Circuit(")[1].split(",")[0])
+        else:
+            n = rng.choice([1, 2, 2, 3])
+            gs = gen_circuit(rng, n, rng.randint(1, 5), allow_m=False, allow_chan=False)
+            mode = rng.random()
+            present = sorted({g.split("(")[0].split(".")[1] for g in gs})
+            if mode < 0.65:
+                rules = mixture_rules(rng, n, [None] + present, rng.randint(1, 2), False)
+                src = case_source(n, False, gs, rules) + "noisy = nm.apply(c)\n"
+            else:
+                nmap = {q: rng.choice([[("X", (q + 1) / 16)], [("Y", 0.125), ("Z", (q + 1) / 32)]]) for q in range(n)}
+                src = f"c = Circuit({n}, density_matrix=False)\n" + "".join(f"c.add({g})\n" for g in gs) + f"noisy = c.with_pauli_noise({nmap!r})\n"
         ns = run_source(src)
         queue = list(ns["noisy"].queue)
         sizes = tape_sizes(queue)
         ntapes = int(np.prod(sizes)) if sizes else 1
-        if not sizes or ntapes > (6000 if ctx.thorough else 1500):
-            continue
-        done += 1
+        if is_wide:  # these come on top of the random cases
+            if not any(isinstance(g, gates.DepolarizingChannel) and len(g.target_qubits) >= 3 for g in queue) or ntapes > 1500:
+                raise RuntimeError(f"three-qubit depolarizing case not as constructed ({ntapes} tapes): " + src)
+            ctx.stat("traj_three_qubit_depolarizing")
+        else:
+            if not sizes or ntapes > (6000 if ctx.thorough else 1500):
+                continue
+            done += 1
         d = 2**n
         psi = np.array([complex(rng.gauss(0, 1), rng.gauss(0, 1)) for _ in range(d)])
         psi /= np.linalg.norm(psi)
